@@ -131,7 +131,10 @@ func (*sourceAddrHashLoadBalancer) hash(s string) int {
 	if v >= 0 {
 		return v
 	}
-	return -v
+	if v = -v; v < 0 { // the minimum int negates to itself (CRC 0x80000000 on 32-bit platforms)
+		return 0
+	}
+	return v
 }
 
 // next returns the eligible event-loop by taking the remainder of a hash code as the index of event-loop list.
